@@ -24,6 +24,9 @@ def run_suite(rep, pid, suite, tier, what_failed='obligation'):
             if o['status'] == 'failed': failed.append((fn, o))
         if not r.get('degraded') and not r.get('error') and not any(o['name'].startswith('REACH/') for o in r['results']) \
                 and verify.SUITES[suite]['obligations'] == 'posts':
-            rep.error('%s: no normal exit reached (vacuous contract?)' % fn)
+            if suite == 'irns' and r.get('paths', 0) > 0:
+                pass          # the invariant is demanded at every exit, exceptional ones included: a function whose modelled exits all raise is not vacuous
+            else:
+                rep.error('%s: no normal exit reached (vacuous contract?)' % fn)
     if n == 0: rep.error('zero proof obligations generated for %s' % pid)
     return failed
